@@ -3,7 +3,7 @@
    partition_grouped_take, the exchange as per-input partitioners + per-output exactly-once FIFO queues).
    The hash kernel is C11's GENERATED code; its remainder theorem is reused, not redone. *)
 From Coq Require Import List ZArith Bool Arith Lia Sorted Permutation.
-From DF Require Import Base.Prelude Base.Bits Gen.StrengthReduced Model.Repartition
+From DF Require Import Base.Prelude Base.Bits Gen.StrengthReduced Model.Repartition Model.RepartitionSpill
   Proofs.RepartitionProofs Proofs.RepartitionRouting Proofs.RepartitionExchange.
 Import ListNotations.
 Close Scope Z_scope.
@@ -155,6 +155,23 @@ Proof. exact routed_total_sorted. Qed.
 Theorem C10_routed_is_prun : forall sc p batches next l,
   routed sc next batches p = Some l -> snd (prun xrow Z (tstep sc) next batches p) = l.
 Proof. exact routed_prun. Qed.
+
+(* KNOWN FINDING (replayed on the implementation by the harness witness, see lib/props/C10_known_findings_proposed.json):
+   the exchange theorem above takes the per-output queue as an exactly-once FIFO.  The real queue of non-preserve-order
+   mode -- Spilled markers through the gated distributor channel + ONE multi-producer spill pool shared by all input tasks
+   of an output -- is not: in the faithful small model Model/RepartitionSpill.v two input tasks (1 and 3 batches, everything
+   spilled, one output) reach a state in which no task and not the reader can take a step while 3 of the 4 batches are
+   undelivered: the reader took a marker and polls the spill stream, which is pending on the exhausted but unsealed first
+   file; the batches are in the second file; task 1 is blocked in send by the gate (the channel holds a marker the reader
+   no longer takes), so it never drops its sink and the first file is never sealed. *)
+Theorem C10_shared_spill_pool_deadlock_refuted :
+  exists sched st, srun (sinit [1; 3]) sched = Some st /\ stuck st = true /\ delivered st = 1 /\
+    files st = [(1, false); (3, false)] /\ rd_spilled st = true /\ chan st = 1.
+Proof.
+  exists [TakeFile 0; TakeFile 1; Write 1; Send 1; Reader; TakeFile 1; Write 1; Send 1; TakeFile 1; Write 1;
+          Write 0; Reader; Reader; Send 0; Finish 0].
+  eexists. split; [vm_compute; reflexivity|]. vm_compute. repeat split; reflexivity.
+Qed.
 
 (* non-vacuity: a two-column range partitioning (first column descending, NULLs first; second ascending, NULLs last)
    with three valid split points, keys with NULLs / duplicates / a string column; a hash batch over 3 partitions; a
